@@ -108,6 +108,46 @@ static void mode_transpose_units(void) {
     }
   }
 }
+/* transposition with view sources and view destinations (plain views, same-word extension, view of a view) */
+typedef struct { int rowoff, wordoff, trailw, trailr, nest; } tplc;
+static const tplc TP[] = {{1, 0, 1, 1, 0}, {0, 1, -1, 0, 0}, {1, 0, -1, 1, 1}, {0, 1, 1, 1, 1}};
+static void trv_case(int r, int c, pat p, int pl, int dstview, int fill) {
+  char b1[40];
+  if (!vx_case_begin("mzd_transpose|%s|%dx%d|%s|place=%d|fill=%d", dstview ? "DST=view" : "SRC=view", r, c, pat_str(p, b1), pl, fill)) return;
+  char desc[160], msg[256]; snprintf(desc, sizeof desc, "%s %dx%d %s placement (%d,%d,%d,%d,nest=%d)", dstview ? "DST=view" : "SRC=view", r, c, b1, TP[pl].rowoff, TP[pl].wordoff, TP[pl].trailw, TP[pl].trailr, TP[pl].nest);
+  pm *A = pm_pat(r, c, p), *E = pm_transpose(A);
+  if (!dstview) {
+    vw_nest = TP[pl].nest; vwin w = vw_make(A, 1, TP[pl].rowoff, TP[pl].wordoff, TP[pl].trailw, TP[pl].trailr, fill); vw_nest = 0; vw_snapshot(&w);
+    mzd_t *R = mzd_transpose(NULL, w.view);
+    expect("mzd_transpose|SRC=view", "transpose", R, E, desc);
+    if (!vw_all_unchanged(&w, msg, sizeof msg)) vx_fail("mzd_transpose|SRC=view", "source-unchanged", "%s: %s", desc, msg);
+    if (R) mzd_free(R); vw_free(&w);
+  } else {
+    pm *O = pm_pat(c, r, (pat){P_O, 0, 0}); mzd_t *Az = mzd_from_pm(A);
+    vw_nest = TP[pl].nest; vwin w = vw_make(O, 1, TP[pl].rowoff, TP[pl].wordoff, TP[pl].trailw, TP[pl].trailr, fill); vw_nest = 0; vw_snapshot(&w);
+    mzd_t *R = mzd_transpose(w.view, Az);
+    if (R != w.view) vx_fail("mzd_transpose|DST=view", "return-value", "%s: different matrix returned", desc);
+    if (!mzd_eq_pm(w.view, E)) vx_fail("mzd_transpose|DST=view", "transpose", "%s: the view does not hold the transpose", desc);
+    if (vw_outside_changed(&w, msg, sizeof msg)) vx_fail("mzd_transpose|DST=view", "nothing-else", "%s: %s", desc, msg);
+    unchanged("mzd_transpose|DST=view", Az, A, "A", desc);
+    mzd_free(Az); vw_free(&w); pm_free(O);
+  }
+  vx_input(pm_hash(A) * 8 + (uint64_t)(pl * 2 + dstview) + ((uint64_t)fill << 60), !pm_is_zero(A));
+  pm_free(A); pm_free(E);
+  vx_case_end();
+}
+static void mode_transpose_views(void) {
+  for (int r = 1; r <= 130; r++) for (int c = 1; c <= 130; c++) {
+    if (!vx_tier && r > 70 && c > 70 && ((r + c) % 3)) continue;
+    for (int pl = 0; pl < 4; pl++) for (int dv = 0; dv < 2; dv++) {
+      trv_case(r, c, (pat){P_PR, 0, 4}, pl, dv, 1 + ((r + c + pl) & 1));
+      trv_case(r, c, (pat){P_O, 0, 0}, pl, dv, 0);
+      if (vx_tier) { int nb = lbl_bits(r, c); for (int b = 0; b < nb; b += 3) trv_case(r, c, (pat){P_LBL, b, 0}, pl, dv, 2); }
+    }
+  }
+  static const int BG[] = {191, 193, 257, 513, 577, 1025};
+  for (int i = 0; i < 6; i++) for (int j = 0; j < 6; j++) for (int pl = 0; pl < 4; pl++) for (int dv = 0; dv < 2; dv++) { if (!vx_tier && (i + j + pl) % 2) continue; trv_case(BG[i], BG[j], (pat){P_PR, 0, 4}, pl, dv, 1); trv_case(BG[i], 7 + i, (pat){P_PR, 0, 4}, pl, dv, 2); trv_case(5 + j, BG[i], (pat){P_PR, 0, 4}, pl, dv, 2); }
+}
 static void mode_transpose_big(void) {
   static const int BQ[] = {64, 65, 127, 128, 129, 191, 192, 193, 511, 512, 513, 576, 767, 768, 769, 1025}, BT[] = {64, 65, 66, 127, 128, 129, 130, 191, 192, 193, 255, 256, 257, 511, 512, 513, 576, 640, 767, 768, 769, 1024, 1025, 1300};
   const int *B = vx_tier ? BT : BQ; int nbig = vx_tier ? 24 : 16;
@@ -271,6 +311,7 @@ void prop_enumerate(void) {
   else if (!strcmp(mode, "transpose")) mode_transpose();
   else if (!strcmp(mode, "transpose_big")) mode_transpose_big();
   else if (!strcmp(mode, "transpose_units")) mode_transpose_units();
+  else if (!strcmp(mode, "transpose_views")) mode_transpose_views();
   else if (!strcmp(mode, "copy")) mode_copy();
   else if (!strcmp(mode, "submatrix")) mode_submatrix();
   else if (!strcmp(mode, "concat")) mode_concat();
